@@ -35,6 +35,8 @@ fn digits_strategy() -> BoxedStrategy<String> {
         1 => "[0-9]{5,13}",
         1 => "[0-9]{14,40}",
         1 => "0{0,20}[1-9]{1,3}0{0,20}",
+        // operands wider than a machine word / a cache line of digits
+        1 => prop_oneof!["[1-9]0{58,70}", "[1-9]0{120,135}", "[0-9]{60,70}", "[0-9]{41,140}", "0{50,70}[1-9]{1,3}"],
     ]
     .boxed()
 }
@@ -147,7 +149,7 @@ impl Property for C12 {
         "C12"
     }
     fn rule(&self) -> String {
-        "Generated: operation traces of length 1..40 over put/put_digit_at/shift/fput/push/freeze/reset with digit arguments of 1..40 digits (zero-biased), positions up to 39 and runs of up to 40 leading zeros; one trace in 200 is a short trace with extreme arguments (250..700 leading zeros, positions / shifts around 2^16 and up to 70 000), one in 4000 with positions / shifts around 2^20; after every step all public queries (to_string, len, is_empty, is_null, peek(k), is_free(k), is_position_free(k), is_range_free(a,b) a<b, deref, is_ordinal, flags, marker) for k <= len+2 are compared with an independent reference model and the statement's direct invariants are asserted. Enumerated: every trace of length <= 3 over a 19-operation alphabet (quick) / length <= 4 (thorough). Non-trivial = distinct traces containing a refused operation on a non-empty builder, a sub-group shift (shift on a buffer longer than p), or a shift with implicit one.".into()
+        "Generated: operation traces of length 1..40 over put/put_digit_at/shift/fput/push/freeze/reset with digit arguments of 1..40 digits (zero-biased; one in 22 of 41..140 digits, mostly a digit followed by 58..70 or 120..135 zeros), positions up to 39 and runs of up to 40 leading zeros; one trace in 200 is a short trace with extreme arguments (250..700 leading zeros, positions / shifts around 2^16 and up to 70 000), one in 4000 with positions / shifts around 2^20; after every step all public queries (to_string, len, is_empty, is_null, peek(k), is_free(k), is_position_free(k), is_range_free(a,b) a<b, deref, is_ordinal, flags, marker) for k <= len+2 are compared with an independent reference model and the statement's direct invariants are asserted. Enumerated: every trace of length <= 3 over a 19-operation alphabet (quick) / length <= 4 (thorough). Non-trivial = distinct traces containing a refused operation on a non-empty builder, a sub-group shift (shift on a buffer longer than p), or a shift with implicit one.".into()
     }
     fn assumptions(&self) -> Vec<String> {
         vec![
